@@ -2,6 +2,6 @@ From Coq Require Import Extraction ExtrOcamlBasic.
 From F8 Require Import Base.Conv C08.NumInt C08.NumFloat C08.Spec_C08.
 Extraction Language OCaml.
 Extraction "../ocaml/gen/C08/model.ml" keep_types
-  itoa_int itoa_uint fast_atoi int_roundtrip uint_roundtrip int_roundtrip_checked
+  itoa_int itoa_uint fast_atoi int_roundtrip uint_roundtrip
   f64_of_bits bits_of_f64 modp_dtoa fast_atof float_roundtrip dtoa_stage clamp_prec
   canon_dec c08_int_ok c08_int_strict_ok c08_atoi_ok c08_in_domain c08_render_ok c08_parse_ok c08_float_ok c08_atof_ok.
